@@ -349,7 +349,7 @@ class Integer(Element):
     def enforce_length(self, value: int) -> int:
         # Mypy doesn't understand that ``length`` gets set by ``__init__()``
         length = self.length  # type: ignore
-        if length is not None and value >= 10**length:
+        if length is not None and abs(value) >= 10**length:
             msg = f"'{value}' has too many digits; max digits={length}"
             raise OFXSpecError(msg)
         return value
